@@ -1,6 +1,7 @@
 /- C20 line-protocol driver: prints `model <TAB> spec` for each case line.
 
-   element kinds  t=[k,..]: 0 int, 1 instrumented (copy counted, move leaves -1), 2 move-only, 3 copy-only, 4 int&, 5 int const
+   element kinds  t=[k,..]: 0 int, 1 instrumented (copy counted, move leaves -1), 2 move-only, 3 copy-only, 4 int&, 5 int const,
+                  (pair lines only) 6 instrumented& , 7 instrumented const&   (construction binds, assignment assigns through)
    categories     0 l (lvalue), 1 c (const lvalue), 2 r (rvalue), 3 k (const rvalue)
 
    pair  op=cmp e=int|dbl a=[x,y] b=[u,v]                       -> six bits  == != < <= > >=   (dbl: 9 is NaN)
@@ -8,6 +9,9 @@
    tuple op=<O> t=[k,..] a=[..] b=[..]                          -> same;  op=eq -> bit
          O: dflt ctor ctorr copy move assign massign swap fswap selfswap make maker get getc getr getcr sb mft mftr fwd tie
             conv convr cassign cmassign (pair of int only)
+   pair  op=xassign|xmassign t=[kd1,kd2] u=[ks1,ks2] a=[x,y] b=[u,v]   -> r=- a=[..] b=[..] cp=N | n/a
+         converting assignment between pairs of DIFFERENT element kinds: `pair<kd1,kd2> a; pair<ks1,ks2> b;`
+         xassign: `a = as_const(b)`, xmassign: `a = move(b)`; n/a unless is_assignable_v<T&, U const&> resp. <T&, U> per element
    tuple op=apply q=Q c=C a=[..]   (q: tuple category, c: callee category, default 0)   -> r=N log=L
    tuple op=apply f=memfn q=Q a=[x] | f=memdata q=Q v=N   (pointer to member; the object is the first tuple element)
          further O: tieassign tiemassign gett gettr convp convpr (tuple from pair); conv.. for tuple: int elements widen/narrow
@@ -27,9 +31,15 @@
    rw/fref act=reref (ref(reference_wrapper)) | rebind (assignment); fref ne=1: function_ref<R(Args...) noexcept>
    log entry: tid/self/args; per argument a letter and the value: v by-value parameter, l c r k category seen by a
           forwarding parameter, L C R K the same for an argument that arrives as a reference_wrapper
-   new                                                           -> four empty inplace_function objects (3 = small capacity)
+   new                                                           -> six empty inplace_function objects: 0..2 capacity 32,
+                                                                    3..4 capacity 16, 5 capacity 24 / alignment 8
    ifn op=ctor_empty|ctor_null|ctor_fn|ctor_copy|ctor_move|assign|massign|assign_fn|assign_null|swap|fswap|call|bool|eqnull|nenull
-       i=I [j=J] [ty=T id=N] [x=X]                               -> <res> e=[..] live=N log=L                      -/
+       i=I [j=J] [ty=T id=N] [x=X]                               -> <res> e=[..] live=N log=L
+   ifn op=ctor_from|assign_from i=I j=J q=Q     object I is constructed / assigned from object J handed over as an expression of
+       category Q (0 non-const lvalue, 1 const lvalue, 2 rvalue, 3 const rvalue); ctor_copy/assign = q=1, ctor_move/massign = q=2;
+       J may be of a smaller capacity than I (converting constructors)
+   mft tg=T q=Q a=[..]    make_from_tuple<T>(tuple of category Q): which constructor of the target type initialises, and
+       with what (see `Target`)                                   -> r=<c|l|->[..]                                 -/
 import Tetl.Proto
 import Tetl.C20.Model
 import Tetl.C20.Spec
@@ -37,7 +47,8 @@ namespace Tetl.C20.Driver
 open Tetl Tetl.Proto Tetl.C20
 
 def ekOf : Nat → Option EK
-  | 0 => some .int | 1 => some .trk | 2 => some .mo | 3 => some .co | 4 => some .ref | 5 => some .cst | _ => none
+  | 0 => some .int | 1 => some .trk | 2 => some .mo | 3 => some .co | 4 => some .ref | 5 => some .cst
+  | 6 => some .tref | 7 => some .tcref | _ => none
 
 def catOf : Nat → Option Cat
   | 0 => some .l | 1 => some .c | 2 => some .r | 3 => some .k | _ => none
@@ -104,9 +115,32 @@ def applicable (isPair : Bool) (op : String) (ks : List EK) : Bool :=
   -- get<T>: every element type once (kinds name distinct types); through an rvalue: no reference element (libstdc++ 12 cannot
   -- compile get<T&>(pair&&), so the harness leaves reference kinds out)
   | "gett" => distinctKinds ks
-  | "gettr" => distinctKinds ks && ks.all (· != .ref)
+  | "gettr" => distinctKinds ks && ks.all (fun k => k != .ref && k != .tref && k != .tcref)
   | "dflt" => ks.all (fun k => k == .int || k == .cst)
   | _ => true
+
+/-- the element kinds 6 / 7 exist for pair lines only -/
+def pairOnly : EK → Bool
+  | .tref | .tcref => true
+  | _ => false
+
+/-- applicability of a converting assignment, per element (destination kind, source kind):
+    copy form `is_assignable_v<T&, U const&>`: the destination can be assigned to, both are (references to) objects of the same
+    class, and the class has a copy assignment;
+    move form `is_assignable_v<T&, U>`: `U` is handed on as `forward<U>`: an rvalue of the class, or - reference kinds - an
+    lvalue, which again needs the copy assignment (no reference kind of the move-only class exists) -/
+def convApplicable (move : Bool) (ks : List (EK × EK)) : Bool :=
+  ks.all fun (kd, s) => kd.assignable && kd.base == s.base && (move || s.base != .mo)
+
+/-- (model, spec) of a converting assignment between pairs of different kinds -/
+def convOp (op : String) (kd ks : List EK) (a b : List Int) : Option (Except Err Res × Res) :=
+  let e : List ElX := (kd.zip (ks.zip (a.zip b)))
+  match op with
+  | "xassign" =>
+    some (let m := convAssignAll e; .ok ⟨none, m.1, b, m.2⟩, let s := Spec.convAssign e; ⟨none, s.1, b, s.2⟩)
+  | "xmassign" =>
+    some (let m := convMoveAssignAll e; .ok ⟨none, m.1, m.2.1, m.2.2⟩, let s := Spec.convMoveAssign e; ⟨none, s.1, s.2.1, s.2.2⟩)
+  | _ => none
 
 /-- (model, spec) of a value operation -/
 def valueOp (op : String) (ks : List EK) (a b : List Int) : Option (Except Err Res × Res) :=
@@ -188,11 +222,20 @@ def boundObjOf (o : String) : Option BoundObj :=
   | "refw" => some (.refw .l)
   | _ => none
 
+def targetOf : Nat → Option Target
+  | 0 => some .plain | 1 => some .il | 2 => some .ilWide | 3 => some .ilOther | 4 => some .agg | 5 => some .expl
+  | 6 => some .aggNarrow | 7 => some .ctorNarrow | _ => none
+
+def fmtBuilt : Built → String
+  | .ctor l => s!"r=c{fmtList l}"
+  | .list l => s!"r=l{fmtList l}"
+  | .illFormed => "r=-"
+
 structure DState where
   m : Except Err St
   s : Spec.ASt
 
-def nObj : Nat := 4
+def nObj : Nat := 6
 
 /-- the harness can only count closures with a user-provided copy constructor / destructor (odd `ty`) -/
 def counted : Option Fn → Bool
@@ -209,8 +252,10 @@ def typeFact : String → Option (Bool × Bool)
   | "make_pair_unwraps_refwrap" => some (true, true)
   | "make_tuple_unwraps_refwrap" => some (true, true)
   | "tuple_cat_value_types" => some (true, true)
-  | "tuple_cat_keeps_ref" => some (false, true)
-  | "tuple_cat_keeps_nested" => some (false, true)
+  | "tuple_cat_keeps_ref" => some (true, true)
+  | "tuple_cat_keeps_nested" => some (true, true)
+  | "tuple_cat_no_args" => some (true, true)
+  | "tuple_cat_pair_elements" => some (true, true)
   | "tuple_copy_assignable" => some (true, true)
   | "tuple_move_assignable" => some (true, true)
   | "tuple_get_by_type" => some (true, true)
@@ -234,24 +279,41 @@ def fmtOut : Out → String
   | .res (.ret r) => s!"r={r}"
   | .flag b => s!"b={fmtBool b}"
 
+/-- specialisation of the named objects of a history: 0..2 `inplace_function<Sig, 32>`, 3..4 `inplace_function<Sig, 16>`,
+    5 `inplace_function<Sig, 24, 8>` -/
+def clsOf (i : Nat) : Nat := if i < 3 then 0 else if i < 5 then 1 else 2
+
+/-- construction / assignment of object `i` from object `j` compiles: same specialisation, or the capacity-32 destination from
+    one of the smaller ones (`is_valid_inplace_destination`: capacity and alignment of the source fit) -/
+def fromOk (i j : Nat) : Bool := i < nObj && j < nObj && (clsOf i == clsOf j || clsOf i == 0)
+
 def parseIfn (l : Line) : Option Op :=
   let i := l.nat? "i"
   let j := l.nat? "j"
-  let conv (i j : Nat) : Bool := j == 3 && i != 3
+  let conv (i j : Nat) : Bool := clsOf i != clsOf j
+  let q := (l.nat? "q").bind catOf
   let fn? : Option Fn := match l.nat? "ty", l.nat? "id" with
     | some ty, some id => some { ty := ty, id := id, n := 0 }
+    | _, _ => none
+  let from? (mk : Nat → Nat → Bool → Cat → Op) (i : Nat) (q : Option Cat) : Option Op :=
+    match j, q with
+    | some j, some q => if fromOk i j then some (mk i j (conv i j) q) else none
     | _, _ => none
   match l.str? "op", i with
   | some "ctor_empty", some i | some "ctor_null", some i => some (.ctorEmpty i)
   | some "ctor_fn", some i => fn?.map (.ctorFn i)
-  | some "ctor_copy", some i => j.map fun j => .ctorCopy i j (conv i j)
-  | some "ctor_move", some i => j.map fun j => .ctorMove i j (conv i j)
-  | some "assign", some i => j.map fun j => .assignCopy i j (conv i j)
-  | some "massign", some i => j.map fun j => .assignMove i j (conv i j)
+  -- `ctor_copy` / `assign`: the source is a const lvalue (`as_const`); `ctor_move` / `massign`: `move(source)`;
+  -- `ctor_from` / `assign_from q=Q`: the source expression has category Q
+  | some "ctor_copy", some i => from? .ctorFrom i (some .c)
+  | some "ctor_move", some i => from? .ctorFrom i (some .r)
+  | some "ctor_from", some i => from? .ctorFrom i q
+  | some "assign", some i => from? .assignFrom i (some .c)
+  | some "massign", some i => from? .assignFrom i (some .r)
+  | some "assign_from", some i => from? .assignFrom i q
   | some "assign_fn", some i => fn?.map (.assignFn i)
   | some "assign_null", some i => some (.assignNull i)
-  | some "swap", some i => j.map (.swap i)
-  | some "fswap", some i => j.map (.fswap i)
+  | some "swap", some i => j.bind fun j => if clsOf i == clsOf j then some (.swap i j) else none
+  | some "fswap", some i => j.bind fun j => if clsOf i == clsOf j then some (.fswap i j) else none
   | some "call", some i => (l.int? "x").map (.call i)
   | some "bool", some i => some (.bool i)
   | some "eqnull", some i => some (.eqNull i)
@@ -302,6 +364,16 @@ def step (st : DState) (l : Line) : DState × String :=
       | some ks =>
         if ks.length != a.length || a.length != b.length then bad
         else if (l.op == "pair" && a.length != 2) then bad
+        else if l.op != "pair" && ks.any pairOnly then bad
+        else if op == "xassign" || op == "xmassign" then
+          match kinds? l "u" with
+          | some us =>
+            if l.op != "pair" || us.length != 2 then bad
+            else if !convApplicable (op == "xmassign") (ks.zip us) then out "n/a" "n/a"
+            else match convOp op ks us a b with
+              | some (m, s) => out (fmtE Res.fmt m) s.fmt
+              | none => bad
+          | none => bad
         else if !applicable (l.op == "pair") op ks then out "n/a" "n/a"
         else match valueOp op ks a b with
           | some (m, s) => out (fmtE Res.fmt m) s.fmt
@@ -311,7 +383,7 @@ def step (st : DState) (l : Line) : DState × String :=
   | "tcat" =>
     match kinds? l "k", (l.nat? "q").bind catOf, l.natList? "ts", l.list? "v" with
     | some ks, some q, some ts, some v =>
-      if ts.isEmpty || ts.sum != v.length || ks.length != v.length then bad
+      if ts.sum != v.length || ks.length != v.length || ks.any pairOnly then bad
       -- lvalue / const tuples are copied from: a move-only element does not compile
       else if q != .r && !ks.all (·.copyable) then out "n/a" "n/a" else
       let parts := splitBy ts v
@@ -455,6 +527,15 @@ def step (st : DState) (l : Line) : DState × String :=
         out (fmtE f (notFnCall 4 q (p == 1) args)) (f (Spec.notFnCall 4 q (p == 1) args))
       | none => bad
     | _, _, _, _ => bad
+  | "mft" =>
+    -- make_from_tuple<T>(t): which constructor of the target kind initialises; `form=brace`: the direct-list-initialisation
+    -- `T{..}` compiled directly (no library code: validates `Spec.listInit` against the compiler)
+    match (l.nat? "tg").bind targetOf, (l.nat? "q").bind catOf, l.list? "a" with
+    | some tg, some _, some a =>
+      if a.length > 3 || (l.str? "src" == some "pair" && a.length != 2) then bad
+      else if l.str? "form" == some "brace" then out (fmtBuilt (Spec.listInit tg a)) (fmtBuilt (Spec.listInit tg a))
+      else out (fmtE fmtBuilt (makeFromTupleT tg a)) (fmtBuilt (Spec.directInit tg a))
+    | _, _, _ => bad
   | "typeq" =>
     match (l.str? "q").bind typeFact with
     | some (m, s) => out (fmtBool m) (fmtBool s)
